@@ -458,7 +458,8 @@ func streamCodec(c *ctx) {
 			}
 			fd := fieldDesc{Kind: k, Off: off}
 			if k == "u8" && r.Chance(1, 3) {
-				fd.Tag = tagText(r, r.Intn(256))
+				// (0, 1, 255 and the protocol ids among the fixed values: a constant of zero is a constant too)
+				fd.Tag = tagText(r, rng.Pick(r, r.Intn(256), r.Intn(256), 0, 0, 1, 255, 0x17))
 			}
 			body = append(body, fd)
 			off += wd
